@@ -827,3 +827,31 @@ def r17(ctx):
 
 
 RULES.append(("C09.R17", "T8", "the common time of occurrence is carried across headers on the master and written per header on the outstation (shared with C10.R5)", r17))
+
+
+def r18(ctx):
+    """Sibling agreement of the six master-side dead-band builders `DeadBandHeader::group34_var<V>_u<W>`: each maps an (index, value)
+    pair to (Group34Var<V> { value: pair.1 }, pair.0) - where index and value have the same type (g34v1 with 16-bit indices) a swap
+    type-checks and the WRITE is encoded with index and dead-band exchanged. Also: the state bits of with-flags double-bit objects
+    are ASSIGNED from the value, not OR-ed into the user flags (C10.R7, shared code)."""
+    prog = ctx.prog
+    n = 0
+    for bd in prog.bodies.values():
+        m = re.search(r"request::DeadBandHeader::group34_var(\d)_u(8|16)::\{closure#0\}$", bd.path)
+        if not m:
+            continue
+        sym = ctx.sym(bd)
+        for b, si, st, e in ret_sites(bd, sym):
+            n += 1
+            ok = e[0] == "tuple" and len(e[1]) == 2 and e[1][0][0] == "agg" and e[1][0][1].endswith("Group34Var%s" % m.group(1))
+            if ok:
+                v = dict(e[1][0][3]).get("value")
+                ok = v is not None and v[0] == "field" and v[2] == "1" and e[1][1][0] == "field" and e[1][1][2] == "0" and v[1] == e[1][1][1]
+            ctx.check(ok, "dead-band-builder@g34v%s_u%s" % m.groups(), "(index, value) -> (Group34Var%s{value: pair.1}, pair.0): %s" % (m.group(1), expr_str(e)[:70]), bd.where(b.idx), bad_detail="group34_var%s_u%s maps its (index, value) pairs to %s: index and dead-band value are exchanged on the wire" % (m.group(1), m.group(2), expr_str(e)[:90]))
+    if n != 6:
+        raise AnchorError("dead-band builders: %d" % n)
+    import c10
+    c10.r7(ctx)
+
+
+RULES.append(("C09.R18", "T-sibling/T8", "the six dead-band builders keep (index, value) in order; double-bit state bits are assigned from the value (C10.R7)", r18))
